@@ -190,7 +190,8 @@ def spectrum(ctx, N, cls_qual=PCOVR, label="PCovR"):
         for nm, a, dims in zip(("U", "S", "Vt"), r.items, (("n", "K"), ("K",), ("K", "n"))):
             ctx.shape_is("Shape", f"{label}._decompose_full: shape of {nm}", a, dims, site)
         # R-NESTED: the decomposed matrix and the SVD do not depend on k; k only slices
-        bad = [nm for nm, a in zip(("U", "S", "Vt"), r.items) if not _k_only_in_outer_slice(a.term)]
+        # (syntactically, or by being equal to the reference triple, in which k only truncates)
+        bad = [nm for nm, a, b in zip(("U", "S", "Vt"), r.items, ref.items) if not (_k_only_in_outer_slice(a.term) or (_k_only_in_outer_slice(b.term) and N.nf(a.term) == N.nf(b.term)))]
         ctx.ob("R-NESTED", f"{label}._decompose_full: n_components_ enters only through the final prefix slice", not bad, f"components whose value depends on k other than by truncation: {bad}", site)
     # a fractional request: the same rule in both classes (variance fraction of the eigenvalues)
     frac = scalar("fraction", 0, 1)
